@@ -310,6 +310,12 @@ func (s *Stream) ReceiveFrame(ctx context.Context) ([]byte, error) {
 	}
 
 	// Handle zero-length messages
+	if messageLength == 0 && s.gcm != nil && s.encrypted {
+		// A protected frame always carries at least its 16-byte tag; an empty
+		// frame here is unauthenticated and would let a third party end or
+		// split a message.
+		return nil, fmt.Errorf("zero-length frame on an encrypted stream")
+	}
 	if messageLength == 0 {
 		return []byte{}, nil
 	}
@@ -365,6 +371,12 @@ func (s *Stream) ReceiveFrameWithEnd(ctx context.Context) ([]byte, byte, error) 
 	}
 
 	// Handle zero-length messages
+	if messageLength == 0 && s.gcm != nil && s.encrypted {
+		// A protected frame always carries at least its 16-byte tag; an empty
+		// frame here is unauthenticated and would let a third party end or
+		// split a message.
+		return nil, 0, fmt.Errorf("zero-length frame on an encrypted stream")
+	}
 	if messageLength == 0 {
 		// Track header for AAD digest calculation
 		if s.recvDigest != nil && s.finalRecvDigest == nil {
